@@ -478,7 +478,104 @@ def stage_prec(work, tier, seed):
             "samples": [dict(id=v["id"], input=inputs["%s#%d" % (v["id"], v["iid"])][0]) for v in verdicts[:50:17]]}
 
 
-STAGES = {"resolve": stage_resolve, "prec": stage_prec, "tables": stage_tables, "lr": stage_lr, "mci_lr": stage_mci_lr, "glr": stage_glr}
+
+LEX_STRS = ["a", "ab", "abc", "b", "a1", "ba", "aa"]
+LEX_RES = ["a+", "[ab]+", "ab?", "a|ab", "[a-c]+", "\\w+", "[a-c1]+", "b+", "a[b1]*", "ab|a", "aa?"]
+LEX_WINDOWS = ["a", "ab", "abc", "aab", "a1", "ba", "b", "abab", "aa", "c", "abc1", "1a", "ab1", "aaa", "bab", "x"]
+
+
+def lex_sets(seed, n):
+    """Seeded sets of 2-4 terminals from the recogniser family with priorities
+    {5,10,20} in a seeded grammar order."""
+    import re
+    out = []
+    for i in range(n):
+        rng = random.Random("lex-%d-%d" % (seed, i))
+        k = rng.randint(2, 4)
+        terms = []
+        used = set()
+        while len(terms) < k:
+            if rng.random() < 0.5:
+                kind, text = "str", rng.choice(LEX_STRS)
+            else:
+                kind, text = "re", rng.choice(LEX_RES)
+            if (kind, text) in used:
+                continue
+            used.add((kind, text))
+            prio = rng.choice([None, None, 5, 20])
+            terms.append(["L%d" % len(terms), kind, text, "", prio, None])
+        g = {"rules": [["S", [{"rhs": [t[0]], "meta": ""} for t in terms]]], "terms": terms}
+        out.append(("lex:%d:%d" % (seed, i), g))
+    return out
+
+
+def lex_match_table(g, window):
+    import re
+    lat = []
+    for i, t in enumerate(g["terms"]):
+        if t[1] == "str":
+            if window.startswith(t[2]):
+                lat.append([i + 1, len(t[2].encode())])
+        else:
+            m = re.match(t[2], window)
+            if m and m.end() > 0:
+                lat.append([i + 1, len(m.group(0).encode())])
+    return lat
+
+
+def stage_lex(work, tier, seed):
+    """C06 (I -> S): real StringLexer + parsers on single-token grammars."""
+    nsets = 150 if tier == "quick" else 1200
+    cases = []
+    gtext = {}
+    inputs = {}
+    for gid, g in lex_sets(seed, nsets):
+        text = G.render(g)
+        rng = random.Random("lexw-%s" % gid)
+        wins = rng.sample(LEX_WINDOWS, 8 if tier == "quick" else 14)
+        ins = []
+        for iid, w in enumerate(wins, 1):
+            lead = rng.choice(["", "", " "])
+            ins.append({"iid": iid, "text": lead + w, "lex": [], "lat": lex_match_table(g, w), "partial": True,
+                        "meta": {}})
+        combos = []
+        for ms in (True, False):
+            for lm in (True, False):
+                combos.append(("lr", ms, lm, True))
+                combos.append(("glr", ms, lm, False))
+                if tier == "thorough" or (ms, lm) in ((True, True), (False, False)):
+                    combos.append(("glr", ms, lm, True))
+        for algo, ms, lm, go in combos:
+            cid = "%s|%s/ms%d/lm%d/go%d" % (gid, algo, ms, lm, go)
+            gtext[cid] = text
+            for x in ins:
+                inputs["%s#%d" % (cid, x["iid"])] = [x["text"], x["lat"]]
+            cfg = {"algo": algo, "ms": ms, "lm": lm, "go": go, "partial": True}
+            cases.append({"id": cid, "grammar": text, "cfg": cfg, "meta": {"nodis": False, "plain": True},
+                          "inputs": ins, "max_trees": 10})
+    pres = run.run_vdrive(work, "lex", cases)
+    envs = [{"DUMPS": p + ".dumps.ndjson", "TRACES": p + ".traces.ndjson"} for p in pres
+            if os.path.getsize(p + ".traces.ndjson") > 0]
+    rs = run.run_tlc_shards(work, "CheckLex", "CheckLex.cfg", envs)
+    verdicts = [v for r in rs for v in r["verdicts"]]
+    errs = [e for pre in pres for e in run.read_ndjson(pre + ".errs.ndjson")]
+    # design-level: LexOrder vs LexDoc, exhaustive small scope (MC_Lex)
+    mc = run.run_tlc(work, "MC_Lex", "MC_Lex.cfg", {}, workers=run.NCPU, timeout=1200)
+    return {"verdicts": [v for v in verdicts if v["bad"] or v["sort_div"]][:400], "gtext": gtext, "inputs": inputs,
+            "errs": [dict(id=e["id"], cls=e["class"], msg=e["msg"][:200]) for e in errs][:50],
+            "divergences": ["sort order differs: %s" % v["id"] for v in verdicts if v["sort_div"]][:10],
+            "states": sum(r["distinct"] for r in rs) + mc["distinct"],
+            "transitions": sum(r["states"] for r in rs) + mc["states"],
+            "mc_lex_configurations": mc["distinct"], "mc_lex_ok": "No error has been found" in mc["out"],
+            "ncases": len(cases), "ntraces": len(verdicts),
+            "nambiguous": sum(1 for v in verdicts if v["nmatch"] > 1),
+            "nmulti_survivors": sum(1 for v in verdicts if v["nsurv"] > 1),
+            "samples": [dict(id=v["id"], iid=v["iid"], matching=v["nmatch"], survivors=v["nsurv"],
+                             input=inputs.get("%s#%d" % (v["id"], v["iid"]), [""])[0],
+                             grammar=gtext[v["id"]]) for v in verdicts if v["nmatch"] > 1][:3]}
+
+
+STAGES = {"lex": stage_lex, "resolve": stage_resolve, "prec": stage_prec, "tables": stage_tables, "lr": stage_lr, "mci_lr": stage_mci_lr, "glr": stage_glr}
 
 
 # ---------------------------------------------------------------------------
@@ -521,7 +618,8 @@ def coverage(prop, res, stage_names):
         cov["samples"] += r.get("samples", [])[:3]
         cov["per_stage"][st] = {k: r[k] for k in ("ncases", "ndumps", "ntraces", "nok", "nsent", "nevents",
                                                    "ntables", "maxlen", "wall", "nambiguous", "ninscope", "nlrglr",
-                                                   "ncells_exercised", "ngrammars_with_conflicts") if k in r}
+                                                   "ncells_exercised", "ngrammars_with_conflicts",
+                                                   "mc_lex_configurations", "mc_lex_ok", "nmulti_survivors") if k in r}
         cov["per_stage"][st]["divergences"] = len(r.get("divergences", []))
     cov["states"] = max(cov["states"], 1)
     cov["transitions"] = max(cov["transitions"], 1)
